@@ -880,8 +880,9 @@ pub fn run(scn: &Scn, ctx: &Ctx, scratch: &Path) {
             }
         }
     }
-    if !all_rejected {
-        // ... and so must a NEW valid session of the same TSI (a sender that carries on with other objects):
+    {
+        // ... and so must a NEW valid session of the same TSI (a sender that carries on with other objects), whether
+        // faulty packets were accepted or all of them were rejected:
         // TOIs and FDT instance ids that the earlier traffic never used, the ids LOWER than the corpus ones
         // (nothing in FLUTE orders instance ids). What was accepted before may have damaged objects of the old
         // session, it must not blind the receiver to the whole TSI.
